@@ -2,9 +2,9 @@ from props import Prop, Stream, reg
 
 # Streams are grouped by clause of the property; owners of the other clauses append their lists.
 UNWIND_CONTEXT = [
-    Stream('c20.hist', 3, 4, 'oracle',
+    Stream('c20.hist', 3, 4, 'oracle', timeout=3000,
            exhaustive='EVERY history of length <= 3 (thorough 4) over a pool of 12 FDEs (nothing-at-all, 0/1/many initial rules, failing in the CIE initial instructions, mid-FDE, by StackFull in the FDE and in save_initial_rules, by TooManyRegisterRules, decode error in the CIE, set_loc backwards, CIE leaving pushed rows) x storages heap,(2,3),(8,256),Vec, each also with every table abandoned after one row; evaluated on ONE reused UnwindContext and on fresh ones; + random histories of length 2..11 with partial iteration and address lookups on all six storages'),
-    Stream('c20.histm', 2, 3, 'model',
+    Stream('c20.histm', 2, 3, 'model', timeout=3000,
            exhaustive='every history of length <= 2 (thorough 3) over the same pool; results on the reused context predicted by the model (CfiRun.run_history)'),
 ]
 ENTRY_BUFFERS = []        # EntriesRaw::read_entry into reused buffers          (to be added)
